@@ -21,6 +21,8 @@ theorem foldl_frame {β γ : Type} (π : State → γ) (f : State → β → Sta
 /-- the part of the state other connections can see -/
 def shared (s : State) : Map Rec × Tid × List (Tid × List Oid) := (s.committed, s.lastTid, s.log)
 
+@[simp] theorem setO_shared (s : State) (i o) : shared (setO s i o) = shared s := rfl
+
 @[simp] theorem access_shared (s : State) (i) : shared (access s i).1 = shared s := by
   unfold access
   simp only
@@ -32,9 +34,9 @@ def shared (s : State) : Map Rec × Tid × List (Tid × List Oid) := (s.committe
 
 @[simp] theorem markChanged_shared (s : State) (i) : shared (markChanged s i) = shared s := by
   unfold markChanged
-  simp only
+  dsimp only
   repeat' split
-  all_goals first | rfl | (simp only [shared, setO]; exact join_shared s)
+  all_goals first | rfl | (show shared (join _) = _; rw [join_shared]; rfl)
 
 @[simp] theorem disown_shared (s : State) (i) : shared (disown s i) = shared s := rfl
 
@@ -76,7 +78,7 @@ def shared (s : State) : Map Rec × Tid × List (Tid × List Oid) := (s.committe
 @[simp] theorem drainAdded_shared (s : State) : shared (drainAdded s) = shared s := by
   unfold drainAdded
   show shared (List.foldl _ s s.added) = _
-  exact foldl_frame shared _ (fun t k => rfl) _ s
+  exact foldl_frame shared (fun (s : State) (p : Oid × ObjId) => disown { s with added := s.added.del p.1 } p.2) (fun t k => rfl) _ s
 
 @[simp] theorem connTpcAbort_shared (s : State) : shared (connTpcAbort s) = shared s := by
   unfold connTpcAbort tpcCleanup
@@ -141,25 +143,15 @@ def shared (s : State) : Map Rec × Tid × List (Tid × List Oid) := (s.committe
 
 @[simp] theorem storeRec_shared (s : State) (i k r) : shared (storeRec s i k r).1 = shared s := by
   unfold storeRec
-  split
-  · rfl
-  · split
-    · rename_i h; have := storageStore_shared s k r; rw [h] at this; exact this
-    · rename_i h; have := storageStore_shared s k r; rw [h] at this; exact this
+  dsimp only
+  repeat' split
+  all_goals first | rfl | exact storageStore_shared s k r
 
 @[simp] theorem storeOne_shared (s : State) (i) : shared (storeOne s i).1.1 = shared s := by
   unfold storeOne
-  split
-  · rfl
-  · split
-    · rename_i h
-      have := access_shared (classify s i _) i
-      rw [h] at this; simpa using this
-    · rename_i h
-      have := access_shared (classify s i _) i
-      rw [h] at this
-      simp only [storeRec_shared, serialize_shared]
-      simpa using this
+  dsimp only
+  repeat' split
+  all_goals simp
 
 @[simp] theorem storeObjects_shared (fuel : Nat) (s : State) (st) :
     shared (storeObjects fuel s st).1 = shared s := by
@@ -171,11 +163,8 @@ def shared (s : State) : Map Rec × Tid × List (Tid × List Oid) := (s.committe
     | cons i rest =>
       simp only [storeObjects]
       split
-      · rename_i h
-        rw [ih]
-        have := storeOne_shared s i; rw [h] at this; exact this
-      · rename_i h
-        have := storeOne_shared s i; rw [h] at this; exact this
+      · rw [ih]; simp
+      · exact storeOne_shared s i
 
 @[simp] theorem commitLoop_shared (fuel : Nat) (s : State) (l) :
     shared (commitLoop fuel s l).1 = shared s := by
@@ -183,16 +172,8 @@ def shared (s : State) : Map Rec × Tid × List (Tid × List Oid) := (s.committe
   | nil => rfl
   | cons i rest ih =>
     simp only [commitLoop]
-    split
-    · rfl
-    · split
-      · split
-        · rename_i h
-          rw [ih]
-          have := storeObjects_shared fuel s [i]; rw [h] at this; exact this
-        · rename_i h
-          have := storeObjects_shared fuel s [i]; rw [h] at this; exact this
-      · exact ih s
+    repeat' split
+    all_goals simp [ih]
 
 @[simp] theorem connCommitPlain_shared (b : Nat) (s : State) :
     shared (connCommitPlain b s).1 = shared s := commitLoop_shared _ _ _
@@ -200,19 +181,12 @@ def shared (s : State) : Map Rec × Tid × List (Tid × List Oid) := (s.committe
 @[simp] theorem connSavepoint_shared (b : Nat) (s : State) :
     shared (connSavepoint b s).1 = shared s := by
   unfold connSavepoint
-  simp only
+  dsimp only
   split
-  · rename_i h
-    have := connCommitPlain_shared b (match s.sp with
-      | none => { s with sp := some {}, creating := [] }
-      | some _ => { s with creating := [] })
-    cases hsp : s.sp <;> simp only [hsp] at h this <;> rw [h] at this <;> exact this
-  · rename_i h
-    have := connCommitPlain_shared b (match s.sp with
-      | none => { s with sp := some {}, creating := [] }
-      | some _ => { s with creating := [] })
-    cases hsp : s.sp <;> simp only [hsp] at h this <;> rw [h] at this <;>
-      (simp only [shared] at this ⊢; split <;> exact this)
+  · simp only [connCommitPlain_shared]; unfold ensureTmp; split <;> rfl
+  · have h : ∀ t, shared (mergeCreating t) = shared t := by
+      intro t; unfold mergeCreating; split <;> rfl
+    rw [h, connCommitPlain_shared]; unfold ensureTmp; split <;> rfl
 
 @[simp] theorem replay_shared (src : TmpStore) (s : State) (l) :
     shared (replay src s l).1 = shared s := by
@@ -221,9 +195,7 @@ def shared (s : State) : Map Rec × Tid × List (Tid × List Oid) := (s.committe
   | cons k rest ih =>
     simp only [replay]
     repeat' split
-    all_goals first | rfl | skip
-    · rename_i h; have := storageStore_shared s k _; rw [h] at this; exact this
-    · rename_i h; rw [ih]; have := storageStore_shared s k _; rw [h] at this; exact this
+    all_goals simp [ih]
 
 @[simp] theorem commitSavepoint_shared (s : State) : shared (commitSavepoint s).1 = shared s := by
   unfold commitSavepoint
@@ -233,11 +205,9 @@ def shared (s : State) : Map Rec × Tid × List (Tid × List Oid) := (s.committe
 
 @[simp] theorem connCommit_shared (b : Nat) (s : State) : shared (connCommit b s).1 = shared s := by
   unfold connCommit
-  split
-  · split
-    · rename_i h; have := connSavepoint_shared b s; rw [h] at this; exact this
-    · rename_i h; rw [commitSavepoint_shared]; have := connSavepoint_shared b s; rw [h] at this; exact this
-  · exact connCommitPlain_shared b s
+  dsimp only
+  repeat' split
+  all_goals simp
 
 @[simp] theorem rollbackSavepoint_shared (s : State) (p idx cr) :
     shared (rollbackSavepoint s p idx cr) = shared s := by
@@ -253,17 +223,13 @@ def shared (s : State) : Map Rec × Tid × List (Tid × List Oid) := (s.committe
 theorem txnRollback_shared (s : State) (n) : shared (txnRollback s n).1 = shared s := by
   unfold txnRollback
   repeat' split
-  all_goals first | rfl | simp [shared] | skip
-  · exact rollbackSavepoint_shared _ _ _ _
-  · exact connAbort_shared _
+  all_goals first | rfl | (simp; rfl)
 
 theorem txnSavepoint_shared (b : Nat) (s : State) : shared (txnSavepoint b s).1 = shared s := by
   unfold txnSavepoint
-  split
-  · rfl
-  · split
-    · rename_i h; rw [cleanup_shared]; have := connSavepoint_shared b s; rw [h] at this; exact this
-    · rename_i h; have := connSavepoint_shared b s; rw [h] at this; exact this
+  dsimp only
+  repeat' split
+  all_goals first | rfl | (simp; done) | (show shared (connSavepoint b s).1 = _; simp)
 
 theorem txnAbort_shared (s : State) : shared (txnAbort s) = shared s := by
   unfold txnAbort
@@ -282,14 +248,9 @@ theorem txnAbortAfterFailure_shared (j : Bool) (s : State) :
 
 theorem mutate_shared (s : State) (i f) : shared (mutate s i f).1 = shared s := by
   unfold mutate
-  split
-  · rfl
-  · split
-    · rename_i h; have := access_shared s i; rw [h] at this; exact this
-    · rename_i h; have := access_shared s i; rw [h] at this
-      split
-      · exact this
-      · simp only [markChanged_shared]; exact this
+  dsimp only
+  repeat' split
+  all_goals first | rfl | (simp; done)
 
 theorem opAdd_shared (s : State) (i) : shared (opAdd s i).1 = shared s := by
   unfold opAdd
@@ -312,27 +273,15 @@ theorem commitJoined_shared (b : Nat) (s : State) :
     (∃ tid oids, (commitJoined b s).2 = .committed tid oids) ∨
     shared (commitJoined b s).1 = shared s := by
   unfold commitJoined
-  split
-  · right; simp
-  · split
-    · right; simp; rfl
-    · split
-      · right; rename_i h
-        simp only [cleanup_shared]
-        have := connCommit_shared b (connTpcBegin s); rw [h] at this; exact this
-      · rename_i h
-        have hc := connCommit_shared b (connTpcBegin s); rw [h] at hc
-        split
-        · right; simp only [cleanup_shared]; exact hc
-        · split
-          · right; simp only [cleanup_shared]; exact hc
-          · left; exact ⟨_, _, rfl⟩
+  dsimp only
+  repeat' split
+  all_goals first | (left; exact ⟨_, _, rfl⟩) | (right; simp; try rfl)
 
 theorem txnCommit_shared (b : Nat) (s : State) (f) :
     (∃ tid oids, (txnCommit b s f).2 = .committed tid oids) ∨
     shared (txnCommit b s f).1 = shared s := by
   unfold txnCommit
-  simp only
+  dsimp only
   split
   · right; simp; rfl
   · rcases commitJoined_shared b { s with fail := f, nstores := 0, sps := [] } with h | h
@@ -348,9 +297,7 @@ theorem step_shared (b : Nat) (s : State) (op : Op) :
   | read i =>
     right; right
     simp only [step]
-    split
-    · rename_i h; have := access_shared s i; rw [h] at this; exact this
-    · rename_i h; have := access_shared s i; rw [h] at this; exact this
+    split <;> simp
   | modify i v => right; right; exact mutate_shared _ _ _
   | link i j => right; right; exact mutate_shared _ _ _
   | unlink i j => right; right; exact mutate_shared _ _ _
